@@ -116,7 +116,7 @@ func (u universe) addr(i int) gethcommon.Address {
 	return a
 }
 
-func keyOf(j int) gethcommon.Hash   { return gethcommon.BigToHash(big.NewInt(int64(j))) }
+func keyOf(j int) gethcommon.Hash    { return gethcommon.BigToHash(big.NewInt(int64(j))) }
 func wordOf(v int64) gethcommon.Hash { return gethcommon.BigToHash(big.NewInt(v)) }
 func wordID(h gethcommon.Hash) int64 {
 	b := h.Big()
@@ -340,15 +340,16 @@ func (g *gethSide) runTx(u universe, ops []c03Op) c03TxObs {
 // gen builds one transaction's op list, steering choices by a shadow geth state so that the
 // sequence obeys the interpreter's protocol (unless bad is set: the malformed stream).
 type gen struct {
-	r     *Rng
-	u     universe
-	db    *gethstate.StateDB
-	ops   []c03Op
-	snaps []int   // live snapshot ids (stack)
-	dead  []int   // ids that are no longer valid
-	bad   bool
-	nlog  int64
-	base  [nAddrs][nKeys]bool // slot non-zero at tx start
+	r      *Rng
+	u      universe
+	db     *gethstate.StateDB
+	ops    []c03Op
+	snaps  []int // live snapshot ids (stack)
+	dead   []int // ids that are no longer valid
+	bad    bool
+	nlog   int64
+	sender int                 // tx sender (-1 in the funding tx): its nonce is managed by the nonce bracket only
+	base   [nAddrs][nKeys]bool // slot non-zero at tx start
 }
 
 func (g *gen) emit(op c03Op) []int64 {
@@ -434,7 +435,7 @@ func (g *gen) isBlank(a int) bool {
 // a contract creation as the interpreter performs it
 func (g *gen) create(depth int) {
 	a := g.anyAddr()
-	if !g.isBlank(a) {
+	if !g.isBlank(a) || a == g.sender {
 		g.read()
 		return
 	}
@@ -529,6 +530,10 @@ func (g *gen) mutate(depth int) {
 		g.sstore()
 	case 2:
 		a := g.anyAddr()
+		if a == g.sender && !g.bad {
+			g.read()
+			return
+		}
 		n := int64(g.db.GetNonce(g.u.addr(a))) + int64(g.r.Range(0, 2))
 		if g.bad {
 			n = int64(g.r.Range(0, 5))
@@ -557,8 +562,10 @@ func (g *gen) mutate(depth int) {
 		}
 	case 9:
 		a := g.anyAddr()
-		if g.db.GetCodeSize(g.u.addr(a)) == 0 || g.bad {
+		if g.bad {
 			g.emit(c03Op{K: "setcode", A: a, V: int64(g.r.Range(0, 6))})
+		} else {
+			g.read()
 		}
 	}
 	if g.bad && g.r.Chance(1, 4) {
@@ -613,7 +620,7 @@ func (g *gen) malformed() {
 
 // genTx produces one transaction on the shadow state.
 func genTx(r *Rng, u universe, shadow *gethSide, first, bad bool) []c03Op {
-	g := &gen{r: r, u: u, db: shadow.open(), bad: bad}
+	g := &gen{r: r, u: u, db: shadow.open(), bad: bad, sender: -1}
 	for a := 0; a < nAddrs; a++ {
 		for k := 0; k < nKeys; k++ {
 			g.base[a][k] = g.db.GetState(u.addr(a), keyOf(k)) != (gethcommon.Hash{})
@@ -639,6 +646,7 @@ func genTx(r *Rng, u universe, shadow *gethSide, first, bad bool) []c03Op {
 	} else {
 		// ApplyEvmMsg prologue: access list, nonce bracket
 		s := g.anyAddr()
+		g.sender = s
 		d := g.anyAddr()
 		var al [][]int
 		for i := r.Range(0, 2); i > 0; i-- {
@@ -741,7 +749,7 @@ func openers() [][][]c03Op {
 		// created-then-reverted account, nested frames, self-destruct reverted and not
 		{
 			{{K: "add", A: 0, V: 50 * w}, {K: "add", A: 2, V: 7 * w}, {K: "setnonce", A: 2, V: 1}, {K: "setcode", A: 2, V: 2}, {K: "setstate", A: 2, Key: 1, V: 1}},
-			{{K: "snap"}, {K: "sub", A: 0, V: 5 * w}, {K: "add", A: 3, V: 5 * w}, {K: "snap"}, {K: "setstate", A: 3, Key: 0, V: 1}, {K: "revert", V: 1},
+			{{K: "snap"}, {K: "sub", A: 0, V: 5 * w}, {K: "add", A: 3, V: 5 * w}, {K: "setnonce", A: 3, V: 1}, {K: "snap"}, {K: "setstate", A: 3, Key: 0, V: 1}, {K: "revert", V: 1},
 				{K: "exist", A: 3}, {K: "empty", A: 3}, {K: "revert", V: 0}, {K: "exist", A: 3}, {K: "empty", A: 3}, {K: "bal", A: 0}},
 			{{K: "snap"}, {K: "bal", A: 2}, {K: "add", A: 0, V: 7 * w}, {K: "suicide", A: 2}, {K: "suicided", A: 2}, {K: "bal", A: 2}, {K: "revert", V: 0},
 				{K: "suicided", A: 2}, {K: "bal", A: 2}, {K: "bal", A: 0}},
